@@ -114,26 +114,52 @@ func (p *Pair) Step(swap bool) bool {
 		p.apply(p.I, EvConnect())
 		return true
 	}
-	a, b := len(p.IToA) > 0, len(p.AToI) > 0
-	switch {
-	case a && b && swap:
-		p.deliver(false)
-	case a:
-		p.deliver(true)
-	case b:
-		p.deliver(false)
-	case p.I.VS.Snapshot().MsgEvent > 0:
-		p.apply(p.I, EvFlush())
-	case p.A.VS.Snapshot().MsgEvent > 0:
-		p.apply(p.A, EvFlush())
-	default:
+	// the run loop serves its send queue at once (the flush token is consumed before anything else arrives from the
+	// slower network); then frames cross, initiator→acceptor first. swap takes the second available action instead
+	// of the first: the other flush, a frame before a pending flush (the loop found the frame first), or the other wire.
+	acts := p.actions()
+	if len(acts) == 0 {
 		return false
+	}
+	k := 0
+	if swap && len(acts) > 1 {
+		k = 1
+		if acts[0] <= 1 && acts[1] >= 2 {
+			p.Trace = append(p.Trace, "late-flush")
+		}
+	}
+	switch acts[k] {
+	case 0:
+		p.apply(p.I, EvFlush())
+	case 1:
+		p.apply(p.A, EvFlush())
+	case 2:
+		p.deliver(true)
+	case 3:
+		p.deliver(false)
 	}
 	return true
 }
 
+// actions lists what the default schedule can do now, in priority order: 0 flush I, 1 flush A, 2 frame to A, 3 frame to I.
+func (p *Pair) actions() (acts []int) {
+	if p.I.VS.Snapshot().MsgEvent > 0 {
+		acts = append(acts, 0)
+	}
+	if p.A.VS.Snapshot().MsgEvent > 0 {
+		acts = append(acts, 1)
+	}
+	if len(p.IToA) > 0 {
+		acts = append(acts, 2)
+	}
+	if len(p.AToI) > 0 {
+		acts = append(acts, 3)
+	}
+	return
+}
+
 // CanSwap tells whether the ordering deviation is available now.
-func (p *Pair) CanSwap() bool { return p.connected() && len(p.IToA) > 0 && len(p.AToI) > 0 }
+func (p *Pair) CanSwap() bool { return p.connected() && len(p.actions()) > 1 }
 
 // Send submits an application message on one side (also while disconnected).
 func (p *Pair) Send(onI bool) {
